@@ -123,7 +123,7 @@ def plan(tier, seed):
 def minimums(tier):
     return {"hexdump.calls": 5000, "hexdump.default_layout_roundtrips": 2000, "parse.format_checks": 6000,
             "parse.short_last_line": 1500, "parse.with_comments": 800, "cli.hex_checked": 40, "layouts.checked": 400, "parse.beyond_64k": 20,
-            "parse.dump_file_checks": 500, "parse.lines_as_generator": 500, "parse.lines_as_file": 300, "parse.lines_as_tuple": 500, "parse.dump_file_hexlike_heading": 60}
+            "parse.dump_file_checks": 500, "parse.lines_as_generator": 500, "parse.lines_as_file": 300, "parse.lines_as_tuple": 500, "parse.dump_file_hexlike_heading": 60, "parse.old_format_trimmed_lines": 300}
 
 
 def finish(m, tier):
@@ -182,6 +182,18 @@ def run(spec, ctx):
                     lines = [ln[:8].lower() + ln[8:46].lower() + ln[46:] for ln in lines]
                 if strip and lines and n % 16:
                     lines[-1] = lines[-1][:13 + len(lines[-1][13:51].rstrip())]
+            elif name == "old" and rng.random() < 0.4:
+                if rng.random() < 0.5 and n >= 16:
+                    # rows that END in blanks (0x20 bytes): trimming them shortens the line below the other format's width
+                    d = bytearray(d)
+                    for off in range(0, n - 15, 16):
+                        if rng.random() < 0.5:
+                            k = rng.choice([1, 2, 3, 8])
+                            d[off + 16 - k:off + 16] = b" " * k
+                    d = bytes(d)
+                lines = iomodels.render_old(d, lower=lower, strip=strip, trim=rng.choice(["rstrip", "notext"]))
+                fmt = fm[name][1]
+                ctx.count("parse.old_format_trimmed_lines")
             else:
                 lines = fm[name][0](d, lower=lower, strip=strip)
                 fmt = fm[name][1]
